@@ -5,6 +5,7 @@ package c07
 import (
 	"bytes"
 	"context"
+	"cuelabs.dev/go/oci/ociregistry/ociauth"
 	"encoding/base64"
 	"encoding/json"
 	"errors"
@@ -38,6 +39,9 @@ type Script struct {
 	Wraps   []string `json:"wraps,omitempty"`
 	Carrier string   `json:"carrier"`
 	Hops    int      `json:"hops"`
+	// AuthHop: every hop's client goes through ociauth's standard transport (no credentials configured)
+	// and every registry puts a Basic challenge on its 401 answers, as real registries do
+	AuthHop bool `json:"auth_hop,omitempty"`
 }
 
 var standard = []ociregistry.Error{
@@ -63,7 +67,9 @@ var carriers = []string{"GetBlob", "GetBlobRange", "GetManifest", "GetTag", "Res
 	// the error of a method on a registry where everything else works
 	"MountBlob@only",
 	// a listing that fails only when the client asks for its second page (page size 2)
-	"Tags@later-page", "Repositories@later-page"}
+	"Tags@later-page", "Repositories@later-page",
+	// a listing that fails after the first item of a page
+	"Tags@mid-page", "Repositories@mid-page"}
 
 func isHead(c string) bool { return strings.HasPrefix(c, "Resolve") }
 
@@ -159,10 +165,10 @@ func call(reg ociregistry.Interface, carrier string, hops int) error {
 		return reg.DeleteManifest(ctx, "foo", dg)
 	case "DeleteTag":
 		return reg.DeleteTag(ctx, "foo", "latest")
-	case "Repositories", "Repositories@later-page":
+	case "Repositories", "Repositories@later-page", "Repositories@mid-page":
 		_, err := ociregistry.All(reg.Repositories(ctx, ""))
 		return err
-	case "Tags", "Tags@later-page":
+	case "Tags", "Tags@later-page", "Tags@mid-page":
 		_, err := ociregistry.All(reg.Tags(ctx, "foo", ""))
 		return err
 	case "Referrers":
@@ -187,6 +193,28 @@ func call(reg ociregistry.Interface, carrier string, hops int) error {
 		return err
 	}
 	panic("unknown carrier")
+}
+
+// challenging puts a Basic challenge on every 401 answer of the registry behind it.
+type challenging struct{ h http.Handler }
+
+type challengingWriter struct{ http.ResponseWriter }
+
+func (w challengingWriter) WriteHeader(code int) {
+	if code == http.StatusUnauthorized {
+		w.Header().Set("Www-Authenticate", `Basic realm="registry"`)
+	}
+	w.ResponseWriter.WriteHeader(code)
+}
+
+func (c challenging) ServeHTTP(w http.ResponseWriter, req *http.Request) {
+	c.h.ServeHTTP(challengingWriter{w}, req)
+}
+
+type noCredentials struct{}
+
+func (noCredentials) EntryForRegistry(host string) (ociauth.ConfigEntry, error) {
+	return ociauth.ConfigEntry{}, nil
 }
 
 type mountFails struct {
@@ -247,7 +275,18 @@ type observed struct {
 func through(s Script, n int) (observed, error) {
 	before := s.build()
 	var reg ociregistry.Interface = &ociregistry.Funcs{NewError: func(ctx context.Context, method, repo string) error { return before }}
-	if strings.HasSuffix(s.Carrier, "@later-page") {
+	if strings.HasSuffix(s.Carrier, "@mid-page") {
+		// a listing that fails after it has produced the first item of a page
+		mid := func(yield func(string, error) bool) {
+			if yield("t1", nil) {
+				yield("", before)
+			}
+		}
+		reg = &ociregistry.Funcs{
+			Tags_:         func(ctx context.Context, repo, startAfter string) ociregistry.Seq[string] { return mid },
+			Repositories_: func(ctx context.Context, startAfter string) ociregistry.Seq[string] { return mid },
+		}
+	} else if strings.HasSuffix(s.Carrier, "@later-page") {
 		// a listing whose first page is fine and that fails when it is asked to go on
 		items := ociregistry.SliceSeq([]string{"t1", "t2", "t3"})
 		later := func(startAfter string) ociregistry.Seq[string] {
@@ -282,12 +321,20 @@ func through(s Script, n int) (observed, error) {
 		}
 	}()
 	for i := 0; i < n; i++ {
-		srv := memnet.NewServer(ociserver.New(reg, nil))
+		var handler http.Handler = ociserver.New(reg, nil)
+		if s.AuthHop {
+			handler = challenging{handler}
+		}
+		srv := memnet.NewServer(handler)
 		tr := srv.Transport()
 		tap := &statusTap{rt: tr}
 		taps = append(taps, tap)
 		closers = append(closers, func() { tr.CloseIdleConnections(); srv.Close() })
-		c, err := ociclient.New(srv.Host, &ociclient.Options{Insecure: true, Transport: tap, ListPageSize: 2})
+		var clientTransport http.RoundTripper = tap
+		if s.AuthHop {
+			clientTransport = ociauth.NewStdTransport(ociauth.StdTransportParams{Config: noCredentials{}, Transport: tap})
+		}
+		c, err := ociclient.New(srv.Host, &ociclient.Options{Insecure: true, Transport: clientTransport, ListPageSize: 2})
 		if err != nil {
 			return observed{}, err
 		}
@@ -546,13 +593,14 @@ func genScript(t *rapid.T) Script {
 		s.Message = s.Message[:4096]
 	}
 	s.Hops = rapid.SampledFrom([]int{1, 2, 2, 3}).Draw(t, "hops")
+	s.AuthHop = rapid.IntRange(0, 3).Draw(t, "authHop") == 0
 	return s
 }
 
 var prop = &vt.Prop[Script]{
 	ID:   "C07",
 	Name: "ErrorsAcrossTheWire",
-	Rule: "error values: each of the 15 standard codes, custom codes, no code; optional JSON detail (objects, arrays, scalars, null, spaced, numbers that float64 cannot hold); messages {empty, random UTF-8, beginning with the rendered code, with a status line, with both, stuttering, odd spacing}; 0-3 wrappers from {fmt %w, NewHTTPError(status)} with statuses 400-599 incl. ones without a reason phrase (419, 452, 499, 512, 599); carrier = each of the 18 Interface methods (GET, HEAD, POST, PUT, DELETE and list-based) and errors raised by the backend's BlobWriter at Write, Close or Commit (reached through a chunked writer and through PushBlob), a MountBlob that fails on a registry where everything else works, and tag / repository listings that fail when the second page is asked for; sent through 1..3 real server->client hops, and for every hop count h <= hops; oracle = errors.Is against every standard value unchanged (HEAD carriers: the documented status mapping; ErrRangeInvalid status-based as documented), status on every hop = the specification's for the code, else the error's own HTTP status, else 500, code and detail JSON-equal, message after h hops == message after one hop; non-trivial = >= 2 hops, a wrapper, or a prefix-like message; distinct = (code, wraps, message class, carrier, hops, status)",
+	Rule: "error values: each of the 15 standard codes, custom codes, no code; optional JSON detail (objects, arrays, scalars, null, spaced, numbers that float64 cannot hold); messages {empty, random UTF-8, beginning with the rendered code, with a status line, with both, stuttering, odd spacing}; 0-3 wrappers from {fmt %w, NewHTTPError(status)} with statuses 400-599 incl. ones without a reason phrase (419, 452, 499, 512, 599); carrier = each of the 18 Interface methods (GET, HEAD, POST, PUT, DELETE and list-based) and errors raised by the backend's BlobWriter at Write, Close or Commit (reached through a chunked writer and through PushBlob), a MountBlob that fails on a registry where everything else works, and tag / repository listings that fail when the second page is asked for or after the first item of a page; sent through 1..3 real server->client hops (a quarter of the time every client goes through ociauth's standard transport without credentials and every registry puts a Basic challenge on its 401 answers), and for every hop count h <= hops; oracle = errors.Is against every standard value unchanged (HEAD carriers: the documented status mapping; ErrRangeInvalid status-based as documented), status on every hop = the specification's for the code, else the error's own HTTP status, else 500, code and detail JSON-equal, message after h hops == message after one hop; non-trivial = >= 2 hops, a wrapper, or a prefix-like message; distinct = (code, wraps, message class, carrier, hops, status)",
 	Gen:  genScript,
 	Run:  run,
 }
@@ -563,7 +611,7 @@ func TestPropErrors(t *testing.T) { vt.Check(t, prop) }
 var propGrid = &vt.Prop[Script]{
 	ID:   "C07",
 	Name: "ErrorGrid",
-	Rule: "complete grid: 15 standard codes + custom + none x 26 carriers x {bare, NewHTTPError(452) wrapper} over 2 hops",
+	Rule: "complete grid: 15 standard codes + custom + none x 28 carriers x {bare, NewHTTPError(452) wrapper} over 2 hops",
 	Run:  run,
 }
 
@@ -582,7 +630,7 @@ func TestPropGrid(t *testing.T) {
 					if k%shards != shard {
 						continue
 					}
-					if !yield(Script{Code: code, Message: "grid", Carrier: c, Hops: 2, Wraps: wraps}) {
+					if !yield(Script{Code: code, Message: "grid", Carrier: c, Hops: 2, Wraps: wraps, AuthHop: code == "UNAUTHORIZED" && len(wraps) == 0}) {
 						return
 					}
 				}
